@@ -85,6 +85,7 @@ def verify_item(item, timeout_ms=None):
                 rep["status"] = "error"
                 rep["message"] = "no path reaches the end of the function (vacuous)"
             obs = [(o.name, o.pc, o.goal, o.kind, o.line, o.tags) for o in obl]
+            recheck = {o.name: o.heaps.get("recheck") for o in obl}
             # must-fail canary: `False` must not be provable at a normal exit
             if eng.canary_pc is not None:
                 cr = solve.prove(eng.canary_pc, z3.BoolVal(False), use_cvc5=False, timeout_ms=1500)
@@ -128,11 +129,17 @@ def verify_item(item, timeout_ms=None):
                 fn = "/tmp/pyvc_dump/" + re.sub(r"[^A-Za-z0-9_.-]", "_", oname)[:150] + f"_{len(rep['obligations'])}.smt2"
                 with open(fn, "w") as f:
                     f.write(solve.to_smt2(pc, _z3.Not(goal)))
-            rep["obligations"].append({
+            entry = {
                 "name": oname, "key": strip_line(oname), "kind": okind, "line": line, "status": res.status,
                 "solver": res.solver, "seconds": round(res.seconds, 3), "reason": res.reason,
                 "model": _model_text(res.model) if res.status == "refuted" else "",
-            })
+            }
+            if res.status == "refuted" and res.model is not None and kind == "fn" and con.pure:
+                try:
+                    entry.update(_replay(res.model, eng, con, fi, st, oname, okind, recheck.get(oname)))
+                except Exception as e:  # noqa: BLE001  (replay is best effort, never a verdict by itself)
+                    entry["replay_error"] = f"{type(e).__name__}: {e}"
+            rep["obligations"].append(entry)
     except OutsideSubset as e:
         rep["status"] = "drift"
         rep["message"] = str(e)
@@ -145,6 +152,40 @@ def verify_item(item, timeout_ms=None):
     rep["seconds"] = round(time.time() - t0, 3)
     rep["solver_stats"] = dict(solve.STATS)
     return rep
+
+
+def _replay(model, eng, con, fi, st, oname, okind, recheck):
+    """decode the counter-model, run the real function on it, and evaluate the violated
+    clause with what the real code did"""
+    import z3
+    from . import cex
+    from .engine import Ctx
+    from .values import Val, INT, BOOL, VNONE
+    data = cex.decode(model, eng.h0, eng.args0, st["ftypes"], st["prog"])
+    real = cex.run_real(fi.file, con.name, fi.kind, data)
+    out = {"counterexample": data, "real_code": real, "confirmed": None}
+    part = oname.split(":")[1] if ":" in oname else ""
+    if part == "ensures" and recheck is not None and real.get("status") == "returned":
+        contract, h0, hfin, args, nm = recheck
+        if "bool" in real:
+            v = Val(BOOL, z3.BoolVal(real["bool"]))
+        elif "int" in real:
+            v = Val(INT, z3.IntVal(real["int"]))
+        else:
+            v = None
+        if v is not None:
+            clause = dict(contract.ensures(Ctx(None, h0, hfin, args, v)))[nm]
+            val = model.eval(clause, model_completion=True)
+            out["confirmed"] = bool(z3.is_false(val))
+            out["clause_value_with_real_result"] = str(val)
+    elif part == "ensures" and real.get("status") == "raised":
+        out["confirmed"] = True
+        out["note"] = "the real code raised where the contract promises a result"
+    elif part == "raises-only-when":
+        out["confirmed"] = real.get("status") == "raised"
+    elif part == "no-raise-cond":
+        out["confirmed"] = real.get("status") == "returned"
+    return out
 
 
 def _worker(args):
